@@ -1125,7 +1125,9 @@ class Laplace(DiffOperator):
 
             a = Mul(*coeffs)
 
-            if len(vectors) == 2:
+            if len(vectors) == 2 and all(v.is_commutative for v in vectors):
+                # product rule for two scalar factors only: for a vector factor the
+                # cross term is (grad(f).nabla) g, which Dot(Grad(f), Grad(g)) is not
                 f,g = vectors
                 b = f*cls(g) + g*cls(f) + 2 * Dot(Grad(f), Grad(g))
 
